@@ -323,11 +323,16 @@ inductive Val
 
 def rowVal (r : Row) : Val := .dict (r.map fun (k, c) => (k, .cell c))
 
-/-- Python `dict.__setitem__` on an insertion-ordered association list -/
-def dset {α} (d : List (String × α)) (k : String) (v : α) : List (String × α) :=
-  if d.any (·.1 = k) then d.map fun (k', v') => if k' = k then (k', v) else (k', v') else d ++ [(k, v)]
+/-- Python `dict.__setitem__` on an insertion-ordered association list: the (first) entry of the key
+is replaced in place, a new key goes to the end.  (Lists built from `[]` by `dset` have distinct keys.) -/
+def dset {α} : List (String × α) → String → α → List (String × α)
+  | [], k, v => [(k, v)]
+  | (k', v') :: rest, k, v => if k' = k then (k', v) :: rest else (k', v') :: dset rest k v
 
-def dget? {α} (d : List (String × α)) (k : String) : Option α := (d.find? (·.1 = k)).map (·.2)
+/-- `dict.get(k)` -/
+def dget? {α} : List (String × α) → String → Option α
+  | [], _ => Option.none
+  | (k', v') :: rest, k => if k' = k then some v' else dget? rest k
 
 /-- the default block parser: `{name: data[name]}` — one column per kept field -/
 def columns (fields : List FieldDef) (rows : List Row) : List (String × Val) :=
